@@ -10,6 +10,9 @@ pub struct Enc {
     pub be: bool,
     /// fd table indices in order of appearance; the wire index of an `h` is its position here
     pub fds: Vec<u32>,
+    /// When set, a second occurrence of the same fd table index reuses the wire index of the first
+    /// (both policies are valid D-Bus: the wire value is an index into the attached fd array).
+    pub dedup_fds: bool,
 }
 
 impl Enc {
@@ -19,6 +22,7 @@ impl Enc {
             base,
             be,
             fds: vec![],
+            dedup_fds: false,
         }
     }
     fn pad(&mut self, align: usize) {
@@ -74,8 +78,13 @@ impl Enc {
                 self.value(&b.1);
             }
             RV::H(i) => {
-                let idx = self.fds.len() as u32;
-                self.fds.push(*i);
+                let idx = match self.fds.iter().position(|f| f == i) {
+                    Some(p) if self.dedup_fds => p as u32,
+                    _ => {
+                        self.fds.push(*i);
+                        (self.fds.len() - 1) as u32
+                    }
+                };
                 self.u32(idx);
             }
             RV::Array(e, xs) => {
@@ -117,7 +126,13 @@ impl Enc {
 /// Reference encoding of `v` (which starts at absolute position `base`; leading padding to the
 /// value's own alignment is part of the encoding, as zvariant also emits it).
 pub fn encode(v: &RV, be: bool, base: usize) -> Enc {
+    encode_with(v, be, base, false)
+}
+
+/// Like [`encode`], choosing the fd index policy (see [`Enc::dedup_fds`]).
+pub fn encode_with(v: &RV, be: bool, base: usize, dedup_fds: bool) -> Enc {
     let mut e = Enc::new(be, base);
+    e.dedup_fds = dedup_fds;
     e.pad(v.ty().align());
     e.value(v);
     e
@@ -150,6 +165,15 @@ pub struct Dec<'a> {
     arrays: usize,
     structs: usize,
     variants: usize,
+    /// Diagnostics of the first rejection: signature of the innermost type being decoded,
+    /// position (index into `bytes`) where decoding stopped, and a short note on what was being
+    /// read ("padding", "length", "body", "terminator", "value", ...).
+    pub fail_ty: Option<String>,
+    pub fail_pos: usize,
+    pub fail_note: &'static str,
+    /// was the first rejection inside the value of a variant?
+    pub fail_in_variant: bool,
+    note: &'static str,
 }
 
 pub fn valid_object_path(s: &str) -> bool {
@@ -255,9 +279,15 @@ impl<'a> Dec<'a> {
             arrays: 0,
             structs: 0,
             variants: 0,
+            fail_ty: None,
+            fail_pos: 0,
+            fail_note: "",
+            fail_in_variant: false,
+            note: "",
         }
     }
     fn pad(&mut self, align: usize) -> Result<(), Reject> {
+        self.note = "padding";
         while (self.base + self.pos) % align != 0 {
             match self.bytes.get(self.pos) {
                 None => return Err(Reject::Short),
@@ -265,6 +295,7 @@ impl<'a> Dec<'a> {
                 Some(_) => return Err(Reject::Padding),
             }
         }
+        self.note = "value";
         Ok(())
     }
     fn take(&mut self, n: usize) -> Result<&'a [u8], Reject> {
@@ -291,11 +322,18 @@ impl<'a> Dec<'a> {
         Ok(if self.be { u64::from_be_bytes(b) } else { u64::from_le_bytes(b) })
     }
     fn str_body(&mut self, len: usize) -> Result<String, Reject> {
+        self.note = "body";
         let body = self.take(len)?;
+        self.note = "terminator";
         match self.take(1)? {
             [0] => {}
-            _ => return Err(Reject::NoNul),
+            _ => {
+                // report the position of the offending terminator byte
+                self.pos -= 1;
+                return Err(Reject::NoNul);
+            }
         }
+        self.note = "content";
         let s = std::str::from_utf8(body).map_err(|_| Reject::Utf8)?;
         if s.contains('\0') {
             return Err(Reject::InteriorNul);
@@ -310,6 +348,17 @@ impl<'a> Dec<'a> {
         }
     }
     pub fn value(&mut self, ty: &Ty) -> Result<RV, Reject> {
+        let r = self.value_inner(ty);
+        if r.is_err() && self.fail_ty.is_none() {
+            self.fail_ty = Some(ty.sig());
+            self.fail_pos = self.pos;
+            self.fail_note = self.note;
+            self.fail_in_variant = self.variants > 0;
+        }
+        r
+    }
+    fn value_inner(&mut self, ty: &Ty) -> Result<RV, Reject> {
+        self.note = "value";
         Ok(match ty {
             Ty::Y => RV::Y(self.take(1)?[0]),
             Ty::B => match self.u32()? {
@@ -331,6 +380,7 @@ impl<'a> Dec<'a> {
             Ty::O => {
                 let len = self.u32()? as usize;
                 let s = self.str_body(len)?;
+                self.note = "content";
                 if !valid_object_path(&s) {
                     return Err(Reject::ObjectPath);
                 }
@@ -365,6 +415,7 @@ impl<'a> Dec<'a> {
                     return Err(Reject::VariantSignature);
                 }
                 self.variants += 1;
+                self.note = "depth";
                 self.depth_ok()?;
                 self.pad(inner.align())?;
                 let v = self.value(&inner)?;
@@ -377,17 +428,19 @@ impl<'a> Dec<'a> {
                     return Err(Reject::ArrayTooLong);
                 }
                 self.arrays += 1;
+                self.note = "depth";
                 self.depth_ok()?;
                 self.pad(e.align())?;
+                // No up-front "length exceeds the buffer" test: every element consumes at least one
+                // byte, so an over-long length ends in `Short` inside the element that runs out of
+                // bytes, which also says *where* the encoding stops being valid.
                 let end = self.pos + len;
-                if end > self.bytes.len() {
-                    return Err(Reject::Short);
-                }
                 let mut xs = vec![];
                 while self.pos < end {
                     self.pad(e.align())?;
                     xs.push(self.value(e)?);
                     if self.pos > end {
+                        self.note = "boundary";
                         return Err(Reject::ArrayBoundary);
                     }
                 }
@@ -400,20 +453,22 @@ impl<'a> Dec<'a> {
                     return Err(Reject::ArrayTooLong);
                 }
                 self.arrays += 1;
-                // a dict entry is a struct-like container too
+                self.note = "depth";
                 self.depth_ok()?;
                 self.pad(8)?;
                 let end = self.pos + len;
-                if end > self.bytes.len() {
-                    return Err(Reject::Short);
-                }
                 let mut xs = vec![];
                 while self.pos < end {
                     self.pad(8)?;
                     let kk = self.value(k)?;
+                    if self.pos > end {
+                        self.note = "boundary";
+                        return Err(Reject::ArrayBoundary);
+                    }
                     let vv = self.value(v)?;
                     xs.push((kk, vv));
                     if self.pos > end {
+                        self.note = "boundary";
                         return Err(Reject::ArrayBoundary);
                     }
                 }
@@ -422,6 +477,7 @@ impl<'a> Dec<'a> {
             }
             Ty::Struct(fs) => {
                 self.structs += 1;
+                self.note = "depth";
                 self.depth_ok()?;
                 self.pad(8)?;
                 let mut xs = vec![];
@@ -439,8 +495,43 @@ impl<'a> Dec<'a> {
 /// Strictly decode a prefix of `bytes` as one value of `ty`; returns the value and the number of
 /// bytes consumed (including leading alignment padding).
 pub fn decode(ty: &Ty, bytes: &[u8], be: bool, base: usize, n_fds: u32) -> Result<(RV, usize), Reject> {
+    decode_ex(ty, bytes, be, base, n_fds).map_err(|e| e.reject)
+}
+
+/// A rejection together with where and in what the reference decoder stopped.
+#[derive(Debug, Clone)]
+pub struct RejectInfo {
+    pub reject: Reject,
+    /// signature of the innermost type that was being decoded
+    pub ty: String,
+    /// index into the input of the first byte that could not be accepted
+    pub pos: usize,
+    /// what was being read: padding / value / body / terminator / content / boundary / depth
+    pub note: &'static str,
+    /// the rejected item is (part of) the value of a variant
+    pub in_variant: bool,
+}
+
+/// [`decode`] with diagnostics.
+pub fn decode_ex(ty: &Ty, bytes: &[u8], be: bool, base: usize, n_fds: u32) -> Result<(RV, usize), RejectInfo> {
     let mut d = Dec::new(bytes, be, base, n_fds);
-    d.pad(ty.align())?;
-    let v = d.value(ty)?;
-    Ok((v, d.pos))
+    let r = match d.pad(ty.align()) {
+        Ok(()) => d.value(ty),
+        Err(e) => {
+            d.fail_ty = Some(ty.sig());
+            d.fail_pos = d.pos;
+            d.fail_note = "padding";
+            Err(e)
+        }
+    };
+    match r {
+        Ok(v) => Ok((v, d.pos)),
+        Err(reject) => Err(RejectInfo {
+            reject,
+            ty: d.fail_ty.clone().unwrap_or_default(),
+            pos: d.fail_pos,
+            note: d.fail_note,
+            in_variant: d.fail_in_variant,
+        }),
+    }
 }
